@@ -53,6 +53,9 @@ type sdReqObs struct {
 }
 
 type sdObs struct {
+	refused  bool // the process exited before listening (start-up refused the configuration)
+	refClass int  // class of the fatal message (24: graceful <= wait-before, 25: negative wait-before)
+	refMsg   string
 	exit     time.Duration
 	exitCode int
 	reqs     []sdReqObs
@@ -105,7 +108,8 @@ func sdRunScenario(bin, cwd, wk, upstream string, sc sdScenario) sdObs {
 	for t0 := time.Now(); time.Since(t0) < 10*time.Second; time.Sleep(15 * time.Millisecond) {
 		select {
 		case <-done:
-			obs.err = "exited before listening: " + scTail(buf.String())
+			obs.refused = true
+			obs.refClass, obs.refMsg = scClassifyOutput(buf.String(), cmd.ProcessState.ExitCode())
 			return obs
 		default:
 		}
@@ -200,8 +204,8 @@ func sdScenarios(rng *mrand.Rand, tier string) []sdScenario {
 	for _, c := range cfgs {
 		W, G := c.W, c.G
 		before := -250 * ms // request already in flight when the signal arrives
-		during := W / 2      // arrives in the wait-before period (only when W > 0)
-		after := W + 350*ms  // arrives after the listener has been closed
+		during := W / 2     // arrives in the wait-before period (only when W > 0)
+		after := W + 350*ms // arrives after the listener has been closed
 		fins := []time.Duration{-50 * ms, W + 50*ms, okLate[W], afterPoll[W], G + 1000*ms}
 		for li, F := range fins {
 			sc := sdScenario{name: fmt.Sprintf("W=%s G=%s in-flight request finishing at %s", W, G, F), W: W, G: G}
@@ -259,9 +263,12 @@ func sdScenarios(rng *mrand.Rand, tier string) []sdScenario {
 			out = append(out, sc)
 		}
 	}
-	// negative wait-before (accepted by Config.Validate): time.Sleep returns at once, the Shutdown timeout is G - W > G
+	// negative wait-before: before fix 164dd13 Config.Validate accepted it (time.Sleep returns at once, the Shutdown timeout
+	// is G - W > G); now start-up refuses, which is what the driver has to observe. Also graceful <= wait-before.
 	out = append(out, sdScenario{name: "W=-1s G=1s in-flight 5s", W: -1000 * ms, G: 1000 * ms,
 		reqs: []sdReq{{-250 * ms, 5000 * ms}, {350 * ms, 100 * ms}}})
+	out = append(out, sdScenario{name: "W=-500ms G=0s", W: -500 * ms, G: 0, reqs: []sdReq{{-250 * ms, 300 * ms}}})
+	out = append(out, sdScenario{name: "W=1s G=1s", W: 1000 * ms, G: 1000 * ms, reqs: []sdReq{{-250 * ms, 300 * ms}}})
 	return out
 }
 
@@ -303,6 +310,7 @@ func runShutdown(args []string) error {
 	seed := fs.Int64("seed", 1, "PRNG seed")
 	tier := fs.String("tier", "quick", "quick|thorough")
 	par := fs.Int("par", 16, "scenarios in parallel")
+	waitNonneg := fs.Bool("wait-nonneg", false, "model flag: a negative shutdown-wait-before-period is refused at start-up")
 	fs.Parse(args)
 	rng := mrand.New(mrand.NewSource(*seed))
 
@@ -359,7 +367,7 @@ func runShutdown(args []string) error {
 		if o.err != "" && len(o.reqs) == 0 {
 			return fmt.Errorf("scenario %q: %s", sc.name, o.err)
 		}
-		in := []string{"shutdown", strconv.FormatInt(int64(sc.W), 10), strconv.FormatInt(int64(sc.G), 10), "|"}
+		in := []string{"shutdown", scB01(*waitNonneg), strconv.FormatInt(int64(sc.W), 10), strconv.FormatInt(int64(sc.G), 10), "|"}
 		for _, q := range sc.reqs {
 			in = append(in, strconv.FormatInt(int64(q.a), 10))
 		}
@@ -368,6 +376,11 @@ func runShutdown(args []string) error {
 			in = append(in, strconv.FormatInt(int64(q.d), 10))
 		}
 		fmt.Fprintln(fin, strings.Join(in, " "))
+		if o.refused {
+			fmt.Fprintf(fimpl, "R %d\n", o.refClass)
+			fmt.Fprintf(fnotes, "%s\trefused at start-up: %s\t\n", sc.name, strings.ReplaceAll(o.refMsg, "\n", " "))
+			continue
+		}
 		im := []string{strconv.FormatInt(int64(o.exit), 10), strconv.Itoa(o.exitCode), "|"}
 		for _, r := range o.reqs {
 			im = append(im, scB01(r.outcome != "refused"))
